@@ -283,6 +283,7 @@ def build_bytes_from_sse(event: ServerSentEvent, charset: str) -> bytes:
     helper function for SendEventResponse
     """
     data: Iterable[bytes]
+    event = event.copy()  # the dict belongs to the caller, who may yield it again
     if "data" in event:
         data = (
             f"data: {_}".encode(charset) for _ in _split_sse_lines(event.pop("data"))
